@@ -63,6 +63,11 @@ class StoreJudge:
             self.mode = "FIFO"; self.timed = True
             self.sdelay = int(w[3]); self.acc = (len(w) < 5 or w[4] != "0")
             self.last_entry = None
+        elif self.family == "cbelt":
+            self.cap = int(w[2]); self.prio = False; self.filter = False; self.td = 0
+            self.mode = "FIFO"; self.timed = True
+            self.sdelay = int(w[3]); self.acc = (w[4] != "0")
+            self.last_entry = None
         elif self.family == "fleet":
             self.cap = int(w[2]); self.prio = False; self.filter = False; self.td = 0
             self.mode = "FIFO"; self.timed = True
@@ -122,7 +127,7 @@ class StoreJudge:
         else:
             # an API call at this instant may leave internal events pending (timers, trigger events)
             if self.timed or self.filter: self.quiescent = False if k in ("put",) else self.quiescent
-        if self.family in ("fleet", "slot"): self.quiescent = True     # availability is reported explicitly, the triggers run inside the move
+        if self.family in ("fleet", "slot", "cbelt"): self.quiescent = True     # availability is reported explicitly, the triggers run inside the move
         if head.startswith("err") and k in ("adv", "settle", "kstep", "ev"):
             self.v("C20", f"exception escaped the kernel during {k}: {head}")
             return
@@ -157,7 +162,7 @@ class StoreJudge:
         if head.startswith("err") and trig:
             self.v("C07", f"rejected call {op} fired tokens {trig}")
         if self.family == "fleet": self.fleet_line(op, parse_ready(line))
-        if self.family == "slot": self.slot_line(op, parse_ready(line), head)
+        if self.family in ("slot", "cbelt"): self.slot_line(op, parse_ready(line), head)
         self.after_line(op)
 
     # ---- slotted conveyor (C12, C13)
@@ -175,7 +180,7 @@ class StoreJudge:
                     self.v("C12", f"item {iid} reached the exit before items {older}, which entered earlier", "order")
                 if self.now < e["ptime"] + travel:
                     self.v("C12", f"item {iid} entered at t={e['ptime']} and was offered at t={self.now}, before the belt travel time {travel}", "travel-short")
-                elif self.now > e["ptime"] + travel and not stalled_before:
+                elif self.now > e["ptime"] + travel and not stalled_before and self.family == "slot":
                     self.v("C12", f"item {iid} entered at t={e['ptime']} and was offered only at t={self.now} although the belt never stopped (travel time {travel})", "travel-long")
                 if stalled_before and not self.acc:
                     self.v("C13", f"non-accumulating conveyor: item {iid} advanced to the exit at t={self.now} while the head item was waiting there unreserved", "moves-while-stalled")
@@ -187,6 +192,7 @@ class StoreJudge:
                 self.v("C13", f"non-accumulating conveyor admitted a new item at t={self.now} while the head item was waiting at the exit unreserved", "admits-while-stalled")
             self.last_entry = self.now
         for e in self.inside:
+            if self.family != "slot": break
             if e["ready_at"] >= INF and self.now > e["ptime"] + travel and not e.get("late_reported") and not getattr(self, "_ever_stalled", False):
                 e["late_reported"] = True
                 self.v("C12", f"item {e['id']} entered at t={e['ptime']} is still not offered at t={self.now} (travel time {travel}) although nothing ever waited at the exit", "travel-long")
@@ -303,7 +309,7 @@ class StoreJudge:
                 return
             t.state = "used"
             delay = op[5] if len(op) > 5 else 0
-            e = dict(id=op[3], kind=op[4], ptime=self.now, ready_at=(10 ** 9 if self.family in ("fleet", "slot") else self.now + delay), seq=self.nput)
+            e = dict(id=op[3], kind=op[4], ptime=self.now, ready_at=(10 ** 9 if self.family in ("fleet", "slot", "cbelt") else self.now + delay), seq=self.nput)
             self.nput += 1
             # aliasing of one object stored twice: the filter store re-stamps put_time on the object
             if self.filter:
@@ -322,7 +328,7 @@ class StoreJudge:
                 self.v("C07", f"put accepted without a valid reservation (token {tid}, actor {a})")
                 # keep the books consistent with what the store did
                 delay = op[5] if len(op) > 5 else 0
-                self.inside.append(dict(id=op[3], kind=op[4], ptime=self.now, ready_at=(10 ** 9 if self.family in ("fleet", "slot") else self.now + delay), seq=self.nput))
+                self.inside.append(dict(id=op[3], kind=op[4], ptime=self.now, ready_at=(10 ** 9 if self.family in ("fleet", "slot", "cbelt") else self.now + delay), seq=self.nput))
                 self.nput += 1
                 if t is not None and t.state == "granted": t.state = "used"
             elif head != "err RuntimeError":
@@ -416,6 +422,7 @@ class StoreJudge:
     # ---- edge queries (C11)
     def on_probe(self, op, head):
         w = head.split()
+        if op[1] in ("pat", "mode"): return
         if len(w) < 2 or w[1] in ("skip",): return
         if w[1] == "err":
             self.v("C11", f"query {op[1]} raised {w[2]}", "probe"); return
@@ -456,6 +463,8 @@ class StoreJudge:
                 self.v("C01", f"{len(self.inside)} items + {g} granted space reservations > capacity {self.cap}", "cap-exceeded")
         # C04, space side: the admission test is time-independent for these families
         pp = self.pending("put")
+        if pp and self.family == "cbelt":
+            pp = []          # admission of the continuous belt: judged by the lock-step and the C12/C13 rules
         if pp and self.family == "slot":
             # one item enters at a time: an unused granted reservation blocks admission; with items moving, admission
             # also depends on the spacing test, which a kernel event re-evaluates at exactly entry + slot delay
